@@ -28,6 +28,9 @@
 time_t current_time = 0;
 
 int heart_beat_flag = 0;
+/* written by the timer thread, read and cleared by the backend thread */
+#define HEART_BEAT_FLAG_SET(v)  __atomic_store_n (&heart_beat_flag, (v), __ATOMIC_RELEASE)
+#define HEART_BEAT_FLAG_GET()   __atomic_load_n (&heart_beat_flag, __ATOMIC_ACQUIRE)
 
 object_t *current_heart_beat;
 
@@ -57,7 +60,7 @@ static void call_heart_beat (void);
  */
 static void heartbeat_timer_callback(void) {
   async_runtime_t *reactor = get_async_runtime();
-  heart_beat_flag = 1;
+  HEART_BEAT_FLAG_SET (1);
   if (reactor)
     async_runtime_wakeup(reactor);
 }
@@ -312,7 +315,7 @@ void backend () {
             }
         }
 
-      if (heart_beat_flag || has_pending_commands)
+      if (HEART_BEAT_FLAG_GET () || has_pending_commands)
         {
           /* When heart beat is active or commands pending, do not wait in poll */
           timeout.tv_sec = 0;
@@ -355,7 +358,7 @@ void backend () {
        * The heart_beat_flag is set in the heartbeat timer and cleared 
        * when call_heart_beat() is called.
        */
-      if (heart_beat_flag)
+      if (HEART_BEAT_FLAG_GET ())
         call_heart_beat ();
     }
   pop_context (&econ);
@@ -499,7 +502,7 @@ static float perc_hb_probes = 100.0;	/* decaying avge of how many complete */
 static void call_heart_beat () {
 
   object_t *ob;
-  heart_beat_flag = 0;
+  HEART_BEAT_FLAG_SET (0);
   time (&current_time);
   opt_trace (TT_BACKEND|1, "tick: current_time=%u", current_time);
   current_interactive = 0;
@@ -510,7 +513,7 @@ static void call_heart_beat () {
       heart_beat_t *curr_hb;
       num_hb_calls++;
       heart_beat_index = 0;
-      while (!heart_beat_flag)
+      while (!HEART_BEAT_FLAG_GET ())
         {
           ob = (curr_hb = &heart_beats[heart_beat_index])->ob;
           /* is it time to do a heart beat ? */
